@@ -72,3 +72,18 @@ Theorem C02_generated_key_persisted_or_discarded : forall e sk w r w',
                   exists row, store_find (ik_id e) (ko_created o) (w_store w') = Some row).
 Proof. exact created_ik_persisted_or_discarded. Qed.
 Print Assumptions C02_generated_key_persisted_or_discarded.
+
+(* "once the faults stop the next operation succeeds": the history below may contain any number of faulted operations (any fault
+   plans: failed, refused, half-applied writes, failed KMS/AEAD/allocator calls); the next unfaulted Encrypt returns a record -
+   which, by C02_encrypt_returns_genuine, names stored keys. *)
+From Asherah Require Import Envelope.Live Envelope.Total.
+
+Theorem C02_once_the_faults_stop_encrypt_succeeds : forall svc prod t0 ops s x fa payload,
+  Forall (benignL svc prod) ops ->
+  let h := snd (hrun (hinit t0) ops) in
+  let w := h_world h in
+  nth_error (w_sessions w) s = Some x -> nth_error (w_factories w) (ss_factory x) = Some fa ->
+  nz_store (w_store w) -> new_key_timestamp (w_now w) (p_precision (fa_policy fa)) <> 0 ->
+  exists pm c, fst (fst (hstep h (HEncrypt s payload []))) = OEnc pm c.
+Proof. exact unfaulted_encrypt_succeeds. Qed.
+Print Assumptions C02_once_the_faults_stop_encrypt_succeeds.
